@@ -4,6 +4,7 @@ import (
 	"flag"
 	"fmt"
 	"os"
+	"strings"
 	"time"
 
 	"verif/engine"
@@ -48,6 +49,8 @@ func runCmd(args []string) {
 	to := fs.Int("timeout", 300, "seconds")
 	mv := fs.Int("maxviol", 50, "max violations")
 	verbose := fs.Bool("v", false, "verbose")
+	nosleep := fs.Bool("nosleep", false, "disable sleep sets")
+	params := fs.String("params", "", "k=v,k=v harness parameters")
 	fs.Parse(args)
 	t0 := time.Now()
 	in, err := engine.Load("/repo", "/verif/harness")
@@ -56,7 +59,14 @@ func runCmd(args []string) {
 		os.Exit(2)
 	}
 	fmt.Printf("loaded in %v\n", time.Since(t0))
-	cfg := &engine.Config{Harness: *h, MaxPreempt: *p, Gran: *gr, PoolReuse: *reuse, MapOrder: *mo, TimerBudget: *tb, Params: map[string]int{}}
+	cfg := &engine.Config{Harness: *h, MaxPreempt: *p, Gran: *gr, PoolReuse: *reuse, MapOrder: *mo, TimerBudget: *tb, Params: map[string]int{}, NoSleepSets: *nosleep}
+	for _, kv := range strings.Split(*params, ",") {
+		if i := strings.IndexByte(kv, '='); i > 0 {
+			n := 0
+			fmt.Sscan(kv[i+1:], &n)
+			cfg.Params[kv[:i]] = n
+		}
+	}
 	res, err := engine.Explore(in, cfg, *nw, "/usr/bin/z3", 20000, time.Now().Add(time.Duration(*to)*time.Second), *mv)
 	if err != nil {
 		fmt.Println(err)
@@ -67,8 +77,8 @@ func runCmd(args []string) {
 
 func printResult(res *engine.RunResult, verbose bool) {
 	s := res.Stats
-	fmt.Printf("harness %s: paths=%d ok=%d pruned=%d aborted=%d crashed=%d forks=%d sched=%d obligations=%d/%d (trivial %d) solverQ=%d solverT=%v steps=%d depth=%d wall=%v complete=%v\n",
-		res.Harness, s.Paths, s.PathsOK, s.PathsPruned, s.PathsAborted, s.PathsCrashed, s.Forks, s.SchedPoints, s.Discharged, s.Obligations, s.TrivialObl, s.SolverQ, s.SolverTime, s.Steps, s.MaxDepth, res.Wall, res.Complete)
+	fmt.Printf("harness %s: paths=%d ok=%d pruned=%d aborted=%d crashed=%d forks=%d sched=%d obligations=%d/%d (trivial %d) solverQ=%d solverT=%v steps=%d depth=%d sleeppruned=%d wall=%v complete=%v\n",
+		res.Harness, s.Paths, s.PathsOK, s.PathsPruned, s.PathsAborted, s.PathsCrashed, s.Forks, s.SchedPoints, s.Discharged, s.Obligations, s.TrivialObl, s.SolverQ, s.SolverTime, s.Steps, s.MaxDepth, s.SleepPruned, res.Wall, res.Complete)
 	fmt.Printf("reached=%v asserted=%v funcs=%d\n", res.Reached, res.Asserted, len(res.Funcs))
 	for _, a := range res.Aborts {
 		fmt.Println("ABORT:", a)
@@ -98,4 +108,3 @@ func printResult(res *engine.RunResult, verbose bool) {
 		}
 	}
 }
-
